@@ -24,38 +24,40 @@ def tags_for(n):
     return tuple((0x21 + 0x1D * i) & 0xFF for i in range(n))
 
 
-def _cfg(mps, L, maxlast=1, gap=1, pace=1, ready=1, bg_last=(), others=(), flush=1, single=1, delays=(1,)):
+def _cfg(mps, L, maxlast=1, gap=1, pace=1, ready=1, bg_last=(), others=(), flush=1, single=1, delays=(1,), junk=None):
     return dict(mps=mps, L=L, maxlast=maxlast, gap=gap, pace=pace, ready=ready, bg_last=list(bg_last), others=list(others),
-                flush=flush, single=single, delays=list(delays))
+                flush=flush, single=single, delays=list(delays), junk=junk)
 
 
 def configs(tier):
     # others: traffic that does not concern the endpoint ("fin" = IN transaction of another device address incl. the host's ACK)
     # delays: cycle offsets (from the start of the next bus event) at which the producer's valid level may rise
     sweep = range(1, 41)
+    J = [1, 0xEE]        # junk: while valid is low the producer leaves last=1 and a byte that is not in the script on the stream
     q = [_cfg(2, 5, maxlast=2),
          _cfg(2, 4, gap=2, ready=2, bg_last=[3], others=["out1", "fin"], flush=0),
-         _cfg(2, 4, others=["sof"], flush=0),
-         _cfg(2, 4, others=["in2"], flush=0),
+         _cfg(2, 4, others=["sof"], flush=0, junk=J),
+         _cfg(2, 4, others=["in2"], flush=0, junk=[1, 0]),
          _cfg(3, 5, bg_last=[2]),
-         _cfg(3, 7, pace=2, flush=0, delays=[1, 5, 12]),
-         _cfg(4, 6, ready=3, bg_last=[3], flush=0, delays=[1, 9, 17]),
-         _cfg(1, 3, maxlast=2, bg_last=[1], others=["setup", "fin"], flush=0),
-         _cfg(2, 4, maxlast=0, single=0, bg_last=[1], flush=0, delays=sweep),
+         _cfg(3, 7, pace=2, flush=0, delays=[1, 5, 12], junk=J),
+         _cfg(4, 6, ready=3, bg_last=[3], flush=0, delays=[1, 9, 17], junk=J),
+         _cfg(1, 3, maxlast=2, bg_last=[1], others=["setup", "fin"], flush=0, junk=J),
+         _cfg(2, 4, maxlast=0, single=0, bg_last=[1], flush=0, delays=sweep, junk=J),
          _cfg(2, 5, maxlast=0, single=0, bg_last=[2], delays=sweep),
-         _cfg(3, 6, maxlast=0, single=0, gap=2, ready=2, bg_last=[2], flush=0, delays=range(1, 49))]
+         _cfg(3, 6, maxlast=0, single=0, gap=2, ready=2, bg_last=[2], flush=0, delays=range(1, 49), junk=J),
+         _cfg(2, 5, maxlast=1, bg_last=[4], junk=J)]
     if tier == "quick":
         return q
     t = [_cfg(2, 6, maxlast=2, delays=[1, 6, 11, 16]),
-         _cfg(2, 6, maxlast=3, others=["out1", "setup", "fin"], flush=0),
+         _cfg(2, 6, maxlast=3, others=["out1", "setup", "fin"], flush=0, junk=J),
          _cfg(2, 6, maxlast=2, gap=3, pace=2, ready=2, bg_last=[1], delays=[1, 7, 19]),
-         _cfg(3, 8, maxlast=1, bg_last=[5], delays=[1, 8, 15]),
+         _cfg(3, 8, maxlast=1, bg_last=[5], delays=[1, 8, 15], junk=J),
          _cfg(3, 8, maxlast=2, gap=2, ready=3, bg_last=[2], flush=0, others=["fin"]),
          _cfg(4, 9, maxlast=1, bg_last=[7]),
-         _cfg(4, 9, maxlast=1, ready=2, flush=0, delays=range(1, 41, 2)),
+         _cfg(4, 9, maxlast=1, ready=2, flush=0, delays=range(1, 41, 2), junk=J),
          _cfg(8, 18, bg_last=[15], flush=0),
-         _cfg(8, 10, others=["fin"], flush=0, delays=[1, 11]),
-         _cfg(64, 65, single=0, maxlast=0, bg_last=[63, 64], flush=0, delays=[1, 30, 60])]
+         _cfg(8, 10, others=["fin"], flush=0, delays=[1, 11], junk=J),
+         _cfg(64, 65, single=0, maxlast=0, bg_last=[63, 64], flush=0, delays=[1, 30, 60], junk=J)]
     return q + t
 
 
@@ -71,6 +73,7 @@ class BulkInSpec(Spec):
         self.last_at = tuple(cfg["bg_last"])
         self.others = list(cfg["others"])
         self.use_flush, self.single, self.delays = cfg["flush"], cfg["single"], cfg["delays"]
+        self.junk = tuple(cfg["junk"]) if cfg.get("junk") else None
         self.host = DrivenHost(gap=cfg["gap"], pace=cfg["pace"], ready_period=cfg["ready"], extra=dict(connect=1))
 
     def build(self):
@@ -86,7 +89,7 @@ class BulkInSpec(Spec):
         return self.host.assumptions() + [
             "device address 0, endpoint's `discard` input held low (not part of the statement)",
             "an ACK that does not reach the device and a data packet that does not reach the host look the same to the device; both are modelled (they differ in what the ideal host has accepted)",
-            "producer follows the stream handshake: a byte counts as pushed in the cycle valid and ready are both high; `first` is not driven",
+            "producer follows the stream handshake: a byte counts as pushed in the cycle valid and ready are both high; `first` is not driven; while valid is low payload/last are don't-care and carry the configured junk values (0/0, or last=1 with a payload byte that is not in the script)",
             "traffic to another device address is seen as a hub forwards it downstream: the token and the host's handshake, not the other device's data",
             "short packets without `last` are tolerated once flush has been asserted on the path; otherwise every short packet must end a transfer",
             "between transactions the bus is either idle for the minimum gap or for a long time (> 641 cycles, all inter-packet timers saturated); one-shot pushes happen during long idle periods, pushes concurrent with bus traffic through the valid level (rising at the configured cycle offsets)",
@@ -138,7 +141,7 @@ class BulkInSpec(Spec):
         if a[0] == "bg": return (pos, lasts, nl, a[1], fl, flushed, q, hacc, hexp, unacked, dacc, dzlp, 0)
         if a[0] == "fl": return (pos, lasts, nl, bg, fl ^ 1, flushed, q, hacc, hexp, unacked, dacc, dzlp, 0)
         host = self.host
-        prod = Producer(self.tags, pos, lasts, bg, self.last_at, fl)
+        prod = Producer(self.tags, pos, lasts, bg, self.last_at, fl, junk=self.junk)
         host.driver = prod
         flushed = flushed | fl
         try:
